@@ -349,6 +349,13 @@ def fixed_corpus():
     # overlapping priorities
     out.append(Def([L('regex', '[a-z]+', prio=1), L('regex', 'a[a-z]*', prio=2), L('regex', 'ab[a-z]*', prio=3),
                     L('token', 'abc', prio=4), L('regex', 'abc+', prio=5)], origin='fixed:prio'))
+    # three or more patterns matching the same text, in every order of their priorities (the winner of a DFA state is chosen
+    # in one pass over the matching leaves in leaf order)
+    import itertools as _it
+    for k, perm in enumerate(_it.permutations([L('token', 'abc'), L('regex', '[a-z]+'), L('regex', '[a-c][a-z]+')])):
+        out.append(Def([L(l.kind, l.pat) for l in perm] + [L('skip', ' ')], origin='fixed:prio-perm%d' % k))
+    out.append(Def([L('regex', 'ab[a-z]*', prio=3), L('regex', '[a-z]+', prio=1), L('regex', 'abc+', prio=5), L('regex', 'a[a-z]*', prio=2),
+                    L('token', 'abc', prio=4)], origin='fixed:prio-zigzag'))
     # byte mode with arbitrary bytes
     out.append(Def([L('token', bytes([0xff, 0x00, 0x61]), is_bytes=True), L('regex', '(?-u)[\\x80-\\xbf]+'),
                     L('regex', 'é+'), L('regex', '[a-z]+')], utf8=False, origin='fixed:bytes'))
